@@ -397,6 +397,12 @@ class SignatureV4(Signature):
 
     @property
     def signer(self):
+        if 'Issuer' not in self.subpackets:
+            # no Issuer subpacket: the key id of a v4 key is the low 64 bits of its fingerprint
+            for isp in self.subpackets['IssuerFingerprint']:
+                if isp.version == 4:
+                    return isp.issuer_fingerprint.keyid
+
         return self.subpackets['Issuer'][-1].issuer
 
     def __init__(self):
